@@ -50,6 +50,27 @@ def run_property(prop, tier, root=None, quiet=False, write=True,
     except Exception as e:  # pylint: disable=broad-except
       report.selftest = dict(report.selftest or {},
                              mutation_sweep={'error': repr(e)})
+    try:
+      from sa import equiv  # pylint: disable=g-import-not-at-top
+      summary, res = equiv.sweep(prop, limit=int(os.environ.get(
+          'VERIF_EQUIV_LIMIT', '200')))
+      summary['note'] = (
+          'behaviour-preserving single-point rewrites of the functions the '
+          'rules analysed (local renamed, if/else swapped under `not`, return '
+          'via a temporary, conditional expression expanded, `with` items '
+          'nested, `and` guard nested, no-op / logging statement inserted, '
+          'annotation added, comparison flipped, guard clause, De Morgan); '
+          'silent = not reported, alarms = reported although behaviour is '
+          'unchanged (a brittle rule: defect of the checker); informational')
+      summary['alarm_samples'] = ['%s -> %s' % (r[0], r[2]) for r in res
+                                  if r[1] == 'alarm'][:15]
+      report.selftest = dict(report.selftest or {}, equivalence_sweep=summary)
+      for a in summary['alarm_samples']:
+        print('SELFTEST-NOTE property=%s brittle rule on a behaviour-'
+              'preserving rewrite: %s' % (prop, a))
+    except Exception as e:  # pylint: disable=broad-except
+      report.selftest = dict(report.selftest or {},
+                             equivalence_sweep={'error': repr(e)})
   code = core.finish(report, mod.DECIDES, mod.DOES_NOT_DECIDE)
   return code, report
 
